@@ -110,6 +110,33 @@ CHECKS = {
             'schedules; directory layouts are the swarm dimension; the scan for absolute paths is a plain oracle. Only '
             'config and log are scanned (not the taxonomy_tree entry); URLs are not paths.',
             TECH + ': fault injection to reach error messages, path-exposure scan', '5 C20'),
+    'C05': ('exploration',
+            'Knob randomisation behind the I/O seam (requested row chunk, memory budget of the CSC->CSR conversion down to '
+            'the enforced minimum, HDF5 chunk layout, dtype, X or layer, keep_open, scratch or system temp) plus disk-full '
+            'and parent I/O faults during the conversion; full iteration, get_chunk and get_batch compared with the '
+            'generator\'s dense matrix; and the same world in three encodings pushed through the real mapping / statistics '
+            'stage under independent seeded schedules.',
+            'tuning knobs behind the I/O seam (row chunk, max_gb budget, HDF5 chunk layout) are randomised per run; '
+            'encoding-differential runs go through simulated stages; matrix generation is input generation with an '
+            'in-memory matrix model. get_batch judged on distinct rows only.',
+            TECH + ': knob randomisation and I/O fault injection at the file seam, differential stage runs', '5 C05'),
+    'C13': ('exploration',
+            'Serial transposer (value array or not, every kind of minor-axis sub-range, budgets down to the enforced '
+            'minimum), parallel transposer and CSR->CSC pivot under the simulated kernel (1-6 workers, seeded schedules), '
+            'and the file-level operations (CSC->CSR, row shuffle, column subset, stacking selections from several files, '
+            'layer -> X, HDF5 copy) compared with scipy; the thorough tier sweeps all 65536 4x4 patterns through the serial '
+            'transposer.',
+            'serial vs parallel workers, budgets, sub-ranges, schedule; worker death is covered by C14. scipy model of each '
+            'file operation. The 4x4 sweep is reported as such and is not what the claim rests on.',
+            TECH + ': seeded schedules over the transposition pool, knob randomisation, scipy reference model', '5 C13'),
+    'C18': ('exploration',
+            'Full four-stage pipeline per generated world (statistics, reference markers, query markers, mapping), each pool '
+            'under its own seeded random schedule, chained through files; the query holds every leaf centroid read from the '
+            'statistics file, declared normalised, columns permuted; the bootstrap draws are recorded and the property\'s '
+            'own precondition is evaluated on them before a centroid is judged.',
+            'all four stages, each with its pool under a random schedule, chained through files; separable-cluster '
+            'generation is input generation; the precondition check runs on the recorded draws.',
+            TECH + ': end-to-end pipeline under seeded schedules with recorded randomness', '5 C18'),
 }
 
 NOT_BUILT_REASON = 'check not built yet (work in progress; see DESIGN.md section 5 for the planned design)'
